@@ -133,6 +133,11 @@ class Rt:
     def dup_py(self, i) -> bool:
         return self.py.count(self.py[i]) > 1
 
+    def shadowed(self, i) -> bool:
+        """a LATER method has the same Python name: method i's `def`s are replaced (K8). The last method
+        with a name owns it and must work (C11_payload_owner)."""
+        return self.py[i] in self.py[i + 1:]
+
     def literal(self) -> str:
         ms = "; ".join(
             f"Method {coq_str(m.name)} {coq_str(p)} {lib.coq_bool(m.cs)} {lib.coq_bool(m.ss)} {coq_str(m.in_t)} {coq_str(m.out_t)}"
@@ -673,7 +678,7 @@ def expected_call_cv(rt, case, obs):
 # ======================================================================================
 def finding_class(rt, case):
     i = case["method"]
-    if rt.dup_py(i):
+    if rt.shadowed(i):
         return "pyname-collision"
     sc = case["scripts"].get(rt.py[i])
     if sc is not None and rt.svc.methods[i].ss and not sc["gen"]:
@@ -773,7 +778,7 @@ def corpus_bundles(ctx):
 def build_bundles(ctx):
     from betterproto.compile.naming import pythonize_method_name
 
-    nb = 3 if not ctx.thorough else 12
+    nb = 3 if not ctx.thorough else 28
     rts = []
     for bundle in corpus_bundles(ctx):
         rc, out, _ = pu.generate(ctx.work, bundle.files, bundle.root)
@@ -862,7 +867,7 @@ def run(ctx):
         from grpclib.const import Cardinality
         for i, m in enumerate(svc.methods):
             h = mp.get(svc.canonical_route(m))
-            cls = "pyname-collision" if rt.dup_py(i) else None
+            cls = "pyname-collision" if rt.shadowed(i) else None
             if h is None:
                 ctx.fail("oracle", f"__mapping__ has no entry for {svc.canonical_route(m)}", cls=cls, input=replay_input(rt, {"kind": "reflect", "method": i}))
                 continue
@@ -953,7 +958,16 @@ def run(ctx):
             except Exception as e:  # noqa
                 why = [f"oracle evaluation raised {type(e).__name__}: {e}"]
             if why:
-                ctx.fail("oracle", "; ".join(why)[:900], cls=finding_class(rt, c), input=replay_input(rt, c, obs), feature=c["feature"])
+                fc = finding_class(rt, c)
+                what = "; ".join(why)[:900]
+                if fc == "ss-coroutine-handler":
+                    # one line per defect, not one per method (lib de-duplicates on the text)
+                    ctx.fail("oracle", "a server-streaming handler written without `yield` (a coroutine) is never run by "
+                                       "ServiceBase._call_rpc_handler_server_stream: its side effects and the GRPCError it raises are lost "
+                                       "(fixes/c11-server-stream-coroutine.patch)",
+                             cls=fc, input=replay_input(rt, c, obs), feature=c["feature"], detail=what)
+                else:
+                    ctx.fail("oracle", what, cls=fc, input=replay_input(rt, c, obs), feature=c["feature"])
         add(model_call_expr(rt, c, vals_snaps), expected_call_cv(rt, c, obs), ("call", rt, c, obs))
 
     # ------------------------------------------------------------------ T1 again, on a reflection made now
@@ -979,14 +993,16 @@ def run(ctx):
                  theorem_or_correspondence="C11_tables (T1 reflection)", traceback=traceback.format_exc()[-1500:])
 
     # ------------------------------------------------------------------ correspondence inside Coq
+    t2 = time.time()
     try:
         bad = lib.coq_compare(ctx, "c11", imports_with(rts), pairs, chunk=120)
+        ctx.notes.append(f"{len(pairs)} model evaluations in Coq: {time.time() - t2:.1f}s")
     except RuntimeError as e:
         ctx.fail("corr", "the model could not be evaluated on the generated cases (Model/Grpc.v does not build or a case is ill-formed)",
                  no_input=True, theorem_or_correspondence="T2 correspondence Model/Grpc.v <-> generated stub/base + betterproto.grpc", detail=str(e)[-1500:])
         bad = []
     ctx.cov["disagreements_checked"] += len(pairs)
-    for idx in bad[:12]:
+    for idx in bad[:6]:
         d = descr[idx]
         rt = d[1]
         model_val = lib.coq_eval(ctx, imports_with([rt]), pairs[idx][0])
@@ -994,8 +1010,8 @@ def run(ctx):
         ctx.fail("corr", f"model and implementation disagree on {d[0]}" + (f" ({case.get('feature')})" if case.get("feature") else ""),
                  input=replay_input(rt, case, d[3] if len(d) > 3 else None), expected_model=model_val[-1500:], observed_impl=pairs[idx][1][:1500],
                  theorem_or_correspondence="T2 correspondence Model/Grpc.v <-> generated stub/base + betterproto.grpc")
-    if len(bad) > 12:
-        ctx.notes.append(f"{len(bad)} correspondence disagreements in total, 12 reported")
+    if len(bad) > 6:
+        ctx.notes.append(f"{len(bad)} correspondence disagreements in total, 6 reported")
     for idx in (0, 1, len(pairs) // 3, len(pairs) // 2, len(pairs) - 1):
         if 0 <= idx < len(pairs):
             ctx.sample({"case": descr[idx][0], "service": descr[idx][1].describe()["service"],
